@@ -251,7 +251,7 @@ func c12Run(c *Ctx) {
 
 	known := func(o mon.Outcome) string {
 		// recorded: data_type UNDEFINED is decoded from whichever typed field is populated
-		if tp.DataType == 0 && o.Kind == mon.Value {
+		if tp.DataType == 0 && o.Kind == mon.Value && typedFieldPopulated(tp) {
 			return "decode:UNDEFINED-data_type-loaded-from-the-populated-typed-field"
 		}
 		return ""
@@ -404,7 +404,7 @@ func c12Run(c *Ctx) {
 		c.Count("models-made-again-after-an-in-place-edit-of-a-tensor-message", 1)
 		if v := Judge(exp2, o2); !v.OK {
 			sig := "decode:" + v.Kind
-			if tp.DataType == 0 && o2.Kind == mon.Value {
+			if tp.DataType == 0 && o2.Kind == mon.Value && typedFieldPopulated(tp) {
 				sig = "decode:UNDEFINED-data_type-loaded-from-the-populated-typed-field"
 			}
 			c.Violation(sig, "[%s] %s | edited to: type=%d dims=%v raw=%d mutation=%q | before: %s | expectation %s %s", path, trunc(v.Detail, 400), tp.DataType, tp.Dims, len(tp.RawData), pc2.mutation, c.caseStr, exp2.Kind, exp2.Why)
@@ -562,4 +562,10 @@ func sameBytesOtherType(tp *onnx.TensorProto) *onnx.TensorProto {
 	twin.Name = "w_twin"
 	twin.DataType = other
 	return twin
+}
+
+// typedFieldPopulated: the recorded finding about data_type UNDEFINED is the guess from a populated
+// TYPED field; a message that only carries raw bytes (or nothing) has no type to guess.
+func typedFieldPopulated(tp *onnx.TensorProto) bool {
+	return len(tp.FloatData)+len(tp.Int32Data)+len(tp.Int64Data)+len(tp.DoubleData)+len(tp.Uint64Data)+len(tp.StringData) > 0
 }
